@@ -32,8 +32,12 @@ RULE = ("patterns derived from the target node (class alternatives incl. super/o
         "regexes from a sub-language spelled from str(value): prefix, full+$, literal occurring only after the start, "
         ".*, x*) with random white space, ~12% deliberate deviations (wrong class, wrong length, unknown field, "
         "duplicate capture, unbound variable); every case is observed cold / after unrelated compilations / "
-        "cached, in shuffled order; non-trivial = the pattern is accepted and has >= 1 field spec; distinct by "
-        "(text, tree, node)")
+        "cached, in shuffled order; plus white-space histories: string subjects and regexes with white-space runs "
+        "(one vs two blanks, tabs, form feeds), patterns that differ ONLY by a white-space run inside a quoted regex "
+        "(must behave differently) mixed with re-spacings BETWEEN tokens of the same token sequence (must behave "
+        "identically), compiled back to back in both orders from a cold cache and again warm, each single observation "
+        "compared with the model, also through MultiPatternMatcher; non-trivial = the pattern is accepted and has "
+        ">= 1 field spec; distinct by (text, tree, node)")
 TRUSTED = ["lark LALR engine + contextual lexer re-modelled by a scanner-less recursive-descent parser",
            "re: modelled as a parameter; in the correspondence instantiated by a matcher for the generated sub-language "
            "(literals, '.', '\\d', escaped punctuation, 'x*', '$')",
@@ -641,8 +645,120 @@ def fixed_cases():
                    sig="pmatch|history" if oracle else "pmatch|model")
 
 
+# ------------------------------------------------------------------ white-space histories
+
+WS_WORDS = ["return", "x", "a", "if", "1", "b_c", "None"]
+WS_RUNS = [" ", "  ", "\t", " \t", "   ", "\x0c", "\t\t", " \x0c "]
+
+
+def ws_subject(rng) -> list[str]:
+    """words and the white-space runs between them, alternating: [w0, run0, w1, run1, w2 …]"""
+    n = rng.choice([2, 2, 3, 4])
+    parts: list[str] = []
+    for i in range(n):
+        if i:
+            parts.append(rng.choice(WS_RUNS))
+        parts.append(rng.choice(WS_WORDS))
+    return parts
+
+
+def ws_variant(rng, parts: list[str]) -> list[str]:
+    """the same words with one white-space run replaced by a different one"""
+    out = list(parts)
+    j = rng.choice(range(1, len(parts), 2))
+    out[j] = rng.choice([r for r in WS_RUNS if r != parts[j]])
+    return out
+
+
+def ws_regex(rng, subj: str) -> str:
+    k = rng.random()
+    if k < 0.45:
+        return rx_lit(subj) + "$"
+    if k < 0.7:
+        return rx_lit(subj)
+    if k < 0.85:
+        # up to and including the last white-space run
+        cut = max(i for i, ch in enumerate(subj) if ch in " \t\x0c") + 1
+        return rx_lit(subj[:cut])
+    return ".*" + rx_lit(subj[len(subj) // 2:]) + "$"
+
+
+def ws_batch(rng):
+    """near-identical pattern texts — same tokens except for a white-space run inside a quoted regex, and
+    re-spacings between the tokens — compiled back to back in both orders, cold and warm; every single
+    observation is compared with the model"""
+    pa = ws_subject(rng)
+    pb = ws_variant(rng, pa)
+    sa, sb = "".join(pa), "".join(pb)
+    o2 = CodeOrigin(_SRC2, get_code_range(0, 1, 0, 2, 1, 2))
+    la, lb = zoo.Leaf(v=1, s=sa), zoo.Leaf(v=2, s=sb, origin=o2)
+    two = zoo.Two(a=sa, b=sb)
+    root = zoo.Tup((la, lb, two, zoo.Leaf(v=3, s=sa + "z"), zoo.Mixed(lb, (la,), None, name=sb)))
+    toks = zoo.Tokens()
+    orgs = zoo.OrgTable()
+    tree = zoo.enc_tree(root, toks, orgs)
+    env = [zoo.class_table(), orgs.sexp(), [A("nonnode")] + NONNODE, [A("tree"), tree]]
+    desc = zoo.show(root)
+    nodes = [la, lb, two, root.items[3], root.items[4], root]
+    # the same regex construction for both subjects: the two token lists differ in one token, by white space only
+    st = rng.getstate()
+    ra = ws_regex(rng, sa)
+    rng.setstate(st)
+    rb = ws_regex(rng, sb)
+    shape = rng.choice(["leaf", "leaf", "two", "seq", "mixed", "var"])
+
+    def tokens(r):
+        q = '"' + r + '"'
+        if shape == "leaf":
+            return ["(", "Leaf", "@", "s", "=", q, "->", "t", ")"]
+        if shape == "two":
+            return ["(", "Two", "@", rng_field, "=", q, "@", "a", "->", "k", ")"]
+        if shape == "seq":
+            return ["(", "Tup", "@", "items", "=", "[", "(", "Leaf", "@", "s", "=", q, ")", "->", "h", "*", "->", "r", "]", ")"]
+        if shape == "mixed":
+            return ["(", "Mixed", "@", "name", "=", q, "@", "z", "=", "(", "*", "@", "s", "=", q, ")", "->", "z", ")"]
+        return ["(", "Leaf|Two|Mixed", "@", "s", "->", "v", "@", "s", "=", q, "@", "s", "=", "$", "v", ")"]
+
+    rng_field = rng.choice(["a", "b"])
+    ta, tb = tokens(ra), tokens(rb)
+    texts = {
+        "A1": render(rng, ta), "A2": render(rng, ta, spaced=rng.random() < 0.7), "A0": "".join(ta),
+        "B1": render(rng, tb), "B2": render(rng, tb, spaced=rng.random() < 0.7), "B0": "".join(tb),
+    }
+    if rng.random() < 0.5:
+        # the spacing between the tokens of A copied onto B: the texts differ inside the quotes only
+        texts["B1"] = texts["A1"].replace('"' + ra + '"', '"' + rb + '"')
+    histories = [["A1", "B1", "A2", "B2", "A1", "B1"], ["B1", "A1", "B2", "A2"], ["A0", "B0", "B1", "A1"], ["B0", "A0"]]
+    rng.shuffle(histories)
+    for h in histories[: rng.choice([2, 3, 4])]:
+        pm._MATCHER_CACHE.clear()
+        for step, key in enumerate(h):
+            text = texts[key]
+            for node in rng.sample(nodes, 3):
+                real, _ = obs_match(text, node, toks)
+                line = dumps([A("pmatch")] + env + [[A("text"), text], [A("node"), toks.tok(node)]])
+                yield Case("pmatch_ws", line, real, True,
+                           f"history={[texts[k] for k in h[:step + 1]]!r} (cold cache at its start) pattern={text!r} "
+                           f"node=#{toks.tok(node)} tree={desc}", sig="pmatch|ws-history")
+    # the same through MultiPatternMatcher, both rule orders
+    for names in (("A1", "B1"), ("B2", "A2")):
+        pm._MATCHER_CACHE.clear()
+        defs = [(k, texts[k]) for k in names]
+        for node in rng.sample(nodes, 3):
+            order = None if rng.random() < 0.5 else [names[1], names[0]]
+            real, _ = obs_multi(defs, order, node, toks)
+            req = [A("pmulti")] + env + [[A("rules")] + [[n, t] for n, t in defs]]
+            if order is not None:
+                req.append([A("order")] + order)
+            req.append([A("node"), toks.tok(node)])
+            yield Case("pmulti_ws", dumps(req), real, True,
+                       f"defs={defs!r} rules={order!r} node=#{toks.tok(node)} tree={desc}", sig="pmulti|ws-history")
+
+
 def cases(rng: random.Random, tier: str):
     yield from fixed_cases()
     n = 230 if tier == "quick" else 5000
-    for _ in range(n):
+    for i in range(n):
         yield from batch(rng, tier)
+        if i % 3 == 0:
+            yield from ws_batch(rng)
